@@ -139,6 +139,33 @@ pub fn c14_q_poly_path<S: Src>(s: &mut S) {
     core::mem::forget(p2);
     core::mem::forget(ex);
 }
+/// thorough: a four-point polygon and a three-point path (one more point each than the quick harness)
+pub fn c14_t_poly4_path3<S: Src>(s: &mut S) {
+    let c = [s.i32() as Int, s.i32() as Int, s.i32() as Int, s.i32() as Int, s.i32() as Int, s.i32() as Int, s.i32() as Int, s.i32() as Int];
+    let w = s.u32() as usize;
+    vnote!(s, "pts", "{:?} w={}", c, w);
+    let mut ex = exporter();
+    let mut slot = core::mem::MaybeUninit::<ProtoImporter>::uninit();
+    let imp: &mut ProtoImporter = importer!(slot);
+    let poly = Polygon { points: vec![Point::new(c[0], c[1]), Point::new(c[2], c[3]), Point::new(c[4], c[5]), Point::new(c[6], c[7])] };
+    let p = ex.export_polygon(&poly);
+    let ok = match &p {
+        Ok(pp) => ok_and(imp.import_polygon(pp), |sh| matches!(sh, Shape::Polygon(q) if *q == poly)),
+        Err(_) => false,
+    };
+    vcheck!(s, ok, "c14 four-point polygon keeps its points in order");
+    let path = Path { points: vec![Point::new(c[0], c[1]), Point::new(c[2], c[3]), Point::new(c[4], c[5])], width: w };
+    let p2 = ex.export_path(&path);
+    let ok2 = match &p2 {
+        Ok(pp) => ok_and(imp.import_path(pp), |sh| matches!(sh, Shape::Path(q) if *q == path)),
+        Err(_) => false,
+    };
+    vcheck!(s, ok2, "c14 three-point path keeps its points and width");
+    vcover!(s, ok && ok2, "round trips reachable");
+    core::mem::forget(p);
+    core::mem::forget(p2);
+    core::mem::forget(ex);
+}
 /// nets: Some(net) <-> non-empty string, None <-> empty string, on each shape kind
 fn nets_body<S: Src>(s: &mut S, kind: u8) {
     let c = s.u8();
@@ -327,6 +354,7 @@ pub fn replay(name: &str, vals: Vec<Vec<u8>>) -> ReplayOut {
 harnesses! { k, "sel_raw_proto.rs";
     #[kani::stub(alloc::fmt::format, fmt_stub)] #[kani::stub(std::sync::Arc::drop_slow, arc_drop_noop)] #[kani::unwind(6)] c14_q_rect;
     #[kani::stub(alloc::fmt::format, fmt_stub)] #[kani::stub(std::sync::Arc::drop_slow, arc_drop_noop)] #[kani::unwind(6)] c14_q_poly_path;
+    #[kani::stub(alloc::fmt::format, fmt_stub)] #[kani::stub(std::sync::Arc::drop_slow, arc_drop_noop)] #[kani::unwind(7)] c14_t_poly4_path3;
     #[kani::stub(alloc::fmt::format, fmt_stub)] #[kani::stub(std::sync::Arc::drop_slow, arc_drop_noop)] #[kani::unwind(6)] c14_x_nets_rect;
     #[kani::stub(alloc::fmt::format, fmt_stub)] #[kani::stub(std::sync::Arc::drop_slow, arc_drop_noop)] #[kani::unwind(6)] c14_x_nets_poly;
     #[kani::stub(alloc::fmt::format, fmt_stub)] #[kani::stub(std::sync::Arc::drop_slow, arc_drop_noop)] #[kani::unwind(6)] c14_x_nets_path;
